@@ -25,11 +25,15 @@ class Unsupported(Exception):
 
 
 class _Exit(Exception):
-    pass
+    def __init__(self, target=None):
+        super().__init__()
+        self.target = target     # None = innermost loop, else the DO variable of the targeted named loop
 
 
 class _Cycle(Exception):
-    pass
+    def __init__(self, target=None):
+        super().__init__()
+        self.target = target
 
 
 class _Return(Exception):
@@ -282,9 +286,8 @@ class Interp:
             raise Unsupported('derived-type component access')
         name, subs = parts[0]
         lname = name.lower()
-        if lname in frame.assoc:
-            raise Unsupported('associate name')
-        cell = frame.lookup(name)
+        # an associate name of an enclosing ASSOCIATE construct (whole-variable selectors only) aliases the selector's cell
+        cell = frame.assoc[lname] if lname in frame.assoc else frame.lookup(name)
         if not cell.is_array:
             if subs:
                 raise Unsupported(f'subscripted scalar {name}')
@@ -613,9 +616,12 @@ class Interp:
                         self.trace.push_iter(frame.id, pstr, exec_no, it)
                     try:
                         self.exec_body(body, frame, path + ('b',))
-                    except _Cycle:
-                        pass
-                    except _Exit:
+                    except _Cycle as e:
+                        if e.target is not None and e.target.lower() != var.lower():
+                            raise
+                    except _Exit as e:
+                        if e.target is not None and e.target.lower() != var.lower():
+                            raise
                         break
                     finally:
                         if self.trace:
@@ -635,9 +641,12 @@ class Interp:
                     if not c:
                         break
                     self.exec_body(s[2], frame, path + ('b',))
-                except _Cycle:
-                    pass
-                except _Exit:
+                except _Cycle as e:
+                    if e.target is not None:
+                        raise
+                except _Exit as e:
+                    if e.target is not None:
+                        raise
                     break
                 finally:
                     if self.trace:
@@ -726,13 +735,27 @@ class Interp:
                 vals.append(v)
             self.output.append(('print', vals))
         elif k == 'exit':
-            raise _Exit()
+            raise _Exit(s[1][1] if len(s) > 1 and isinstance(s[1], list) else None)
         elif k == 'cycle':
-            raise _Cycle()
+            raise _Cycle(s[1][1] if len(s) > 1 and isinstance(s[1], list) else None)
         elif k == 'return':
             raise _Return()
         elif k == 'assoc':
-            raise Unsupported('associate')
+            # ['assoc', [[name, selector], ...], body]: supported for selectors that are whole variables
+            saved = dict(frame.assoc)
+            new = {}
+            for nm, sel in s[1]:
+                if not (isinstance(sel, list) and sel and sel[0] == 'd' and len(sel[1]) == 1 and sel[1][0][1] is None):
+                    raise Unsupported('associate selector that is not a whole variable')
+                tgt = sel[1][0][0].lower()
+                if tgt in frame.active_do:
+                    raise Unsupported('associate selector is an active DO variable')
+                new[nm.lower()] = saved[tgt] if tgt in saved else frame.lookup(tgt)
+            frame.assoc.update(new)
+            try:
+                self.exec_body(s[2], frame, path + ('b',))
+            finally:
+                frame.assoc = saved
         else:
             raise Unsupported(f'statement {k}')
 
